@@ -7,7 +7,7 @@
    checked on every simulated run, not proved. *)
 From Coq Require Import List NArith ZArith Bool Lia.
 From Ynca Require Import Base.Text Model.Line Model.Conn Model.Life.
-From Ynca Require Import Proofs.ConnFacts Proofs.LifeFacts Proofs.LifeMore.
+From Ynca Require Import Proofs.ConnFacts Proofs.ConnLost Proofs.LifeFacts Proofs.LifeMore.
 From Ynca Require Import Gen.Params.
 Import ListNotations.
 Local Open Scope Z_scope.
@@ -113,3 +113,19 @@ Theorem C15_ended_thread_stays_ended :
   forall acts s s', l_rpc s = LDone -> lrun s acts = Some s' -> l_rpc s' = LDone.
 Proof. exact (done_is_final p_join_sender p_join_reader). Qed.
 Print Assumptions C15_ended_thread_stays_ended.
+
+(* commands still queued are discarded rather than written later, for every schedule: once connection_lost has
+   set connected := False the sender completes at most the one write whose item had already passed its
+   `connected` test ... *)
+Theorem C15_after_the_loss_at_most_one_write :
+  forall acts s s', run p_spacing p_keepalive s acts = Some s' -> g_lost s = true ->
+  (length (g_wire s') + pot (spc_ s') <= length (g_wire s) + pot (spc_ s))%nat.
+Proof. exact (after_the_loss_at_most_one_write p_spacing p_keepalive). Qed.
+Print Assumptions C15_after_the_loss_at_most_one_write.
+
+(* ... and nothing at all if it was not in the middle of a command *)
+Theorem C15_nothing_written_after_the_loss :
+  forall acts s s', run p_spacing p_keepalive s acts = Some s' -> g_lost s = true -> pot (spc_ s) = 0%nat ->
+  g_wire s' = g_wire s.
+Proof. exact (nothing_written_after_the_loss p_spacing p_keepalive). Qed.
+Print Assumptions C15_nothing_written_after_the_loss.
